@@ -32,7 +32,7 @@ import (
 
 // ---------------------------------------------------------------- alphabets
 
-var quickPaths = []string{
+var basePaths = []string{
 	"file.txt", "empty", "dir", "dir/child.txt", "link", "linkout", "dangle", // each node
 	"missing", "dir/missing", // missing
 	"./file.txt", "./new", // ./x
@@ -40,7 +40,23 @@ var quickPaths = []string{
 	".", // the mount root itself
 }
 
-var thoroughExtraPaths = []string{"/file.txt", "../outside.txt", "dir/../new2", "link/", "dir/.", "", "dangle/", "linkout/"}
+// symPaths: symlink to a directory (with trailing slash, through it, "/."), symlink chains, a dangling
+// symlink inside the mount, symlinks to "." and "..", and a new name behind a directory symlink.
+var symPaths = []string{"dirlink", "dirlink/", "dirlink/child.txt", "dirlink/.", "dirlink/new", "link2", "dirlink2", "danglein", "dotlink", "uplink"}
+
+var quickPaths = append(append([]string{}, basePaths...), symPaths...)
+
+func isSymPath(p string) bool {
+	for _, q := range symPaths {
+		if p == q {
+			return true
+		}
+	}
+	return false
+}
+
+var thoroughExtraPaths = []string{"/file.txt", "../outside.txt", "dir/../new2", "link/", "dir/.", "", "dangle/", "linkout/",
+	"dirlink2/", "dirlink2/child.txt", "dotlink/", "dotlink/dirlink/child.txt", "uplink/", "uplink/outside.txt", "danglein/", "link2/"}
 
 var allRights = []uint64{0, rRead, rWrite, rRead | rWrite, rAll}
 
@@ -99,10 +115,13 @@ func fdTails(thorough bool) [][]step {
 // pathTails: mutating path operations RELATIVE TO the new descriptor. For a descriptor that is not a
 // directory every one of them stops at the ENOTDIR test in atPath before it looks at the path, so one
 // path per operation is enumerated there; directories get the full set.
-func pathTails(isDir, thorough bool) [][]step {
+func pathTails(isDir, thorough, ext bool) [][]step {
 	q := []string{"nd"}
 	if isDir || thorough {
 		q = []string{"child.txt", "file.txt", "dir", "nd"}
+		if ext {
+			q = []string{"child.txt", "file.txt", "dir", "dirlink", "nd"}
+		}
 	}
 	var t [][]step
 	one := func(s step) { s.Fd = "new"; t = append(t, []step{s}) }
@@ -176,16 +195,16 @@ func rootFdOps() []step {
 const errSlots = 80
 
 type stats struct {
-	byOp     [][errSlots]int64 // [op index][errno] (errno clamped; last slot = trap)
-	outcomes map[string]int64
-	steps    int64
-	words    int64
-	nontriv  int64
-	opensOK  int64
-	opensExt int64
-	dirOpens int64
-	reads    int64
-	resets   int64
+	byOp      [][errSlots]int64 // [op index][errno] (errno clamped; last slot = trap)
+	outcomes  map[string]int64
+	steps     int64
+	words     int64
+	nontriv   int64
+	opensOK   int64
+	opensExt  int64
+	dirOpens  int64
+	reads     int64
+	resets    int64
 	fullSnaps int64
 }
 
@@ -194,18 +213,18 @@ func newStats() *stats {
 }
 
 type explorer struct {
-	run      *fw.Run
-	tmp      string
-	thorough bool
+	run       *fw.Run
+	tmp       string
+	thorough  bool
 	fullEvery int
-	opIdx    map[string]int
-	samples  *fw.Sampler
-	mu       sync.Mutex
-	total    [nKinds]*stats
-	nonrepro atomic.Int64
+	opIdx     map[string]int
+	samples   *fw.Sampler
+	mu        sync.Mutex
+	total     [nKinds]*stats
+	nonrepro  atomic.Int64
 	confirmed sync.Map // signature -> *atomic.Int64 occurrences
 	provWords [nProvs]atomic.Int64
-	capped   atomic.Bool
+	capped    atomic.Bool
 }
 
 func (e *explorer) merge(kind int, s *stats) {
@@ -258,6 +277,7 @@ type replayCase struct {
 	Mount string `json:"mount"`
 	Cross bool   `json:"cross,omitempty"` // a writable WithDirMount is mounted next to the immutable one
 	Prov  string `json:"provenance,omitempty"`
+	Base  bool   `json:"base_tree,omitempty"` // the small tree without the additional symlinks
 	Word  []step `json:"word"`
 }
 
@@ -266,7 +286,7 @@ func (w *world) rcase(word []step) replayCase {
 	if w.prov != pDirect {
 		pn = provNames[w.prov]
 	}
-	return replayCase{kindNames[w.kind], w.cross, pn, append([]step{}, word...)}
+	return replayCase{kindNames[w.kind], w.cross, pn, !w.ext, append([]step{}, word...)}
 }
 
 // crossOps: operations with two descriptors, one on a WRITABLE mount ("rw": w.txt, wd/) and one on the
@@ -411,7 +431,7 @@ func replayWord(w *world, word []step, log func(string)) (int, string) {
 
 // finalRead: every file is still readable through the mount with its content.
 func (e *explorer) finalRead(w *world, st *stats) {
-	for _, pc := range readable(w.kind) {
+	for _, pc := range readable(w.kind, w.ext) {
 		got, en := w.readThrough(pc[0])
 		st.reads++
 		st.outcomes["read-through:"+errName(en)]++
@@ -448,7 +468,11 @@ var extendedFdflags = map[uint16]bool{0: true, wasip1.FD_APPEND: true, wasip1.FD
 // followed by every tail.
 func (e *explorer) openShard(kind int, path string, lookup uint16, rights uint64) {
 	st := newStats()
-	w := newWorld(kind, e.tmp, false, pDirect)
+	symPath := isSymPath(path)
+	// the extended tree (6 more symlinks, 60% more lstat work per step) is used where it matters: symlink
+	// paths and opens that can yield a directory descriptor; thorough uses it everywhere
+	ext := e.thorough || symPath || path == "." || path == "dir" || path == "dir/"
+	w := newWorld(kind, e.tmp, false, pDirect, ext)
 	defer func() { w.close(); e.merge(kind, st) }()
 	fdT := fdTails(e.thorough)
 	for of := uint16(0); of < 16; of++ {
@@ -471,12 +495,20 @@ func (e *explorer) openShard(kind int, path string, lookup uint16, rights uint64
 			if !e.thorough && kind > kMapFS && !extendedFdflags[ff] {
 				continue // additional mount kinds, quick tier: sequences for a subset of fdflags (all oflags x rights x paths)
 			}
+			if !e.thorough && symPath && kind != kRODir {
+				// symlink paths, quick tier: full sequences on rodir; dirfs fdflags 0/APPEND; dualfs fdflags 0;
+				// the other kinds (no symlink semantics of their own: MapFS has none, the rest are os.DirFS
+				// underneath like dirfs) run the single-step flag product only
+				if !(kind == kDirFS && (ff == 0 || ff == wasip1.FD_APPEND)) && !(kind == kDualFS && ff == 0) {
+					continue
+				}
+			}
 			st.opensExt++
 			isDir := errs[1] == 0 && w.bufFiletype() == wasip1.FILETYPE_DIRECTORY
 			if isDir {
 				st.dirOpens++
 			}
-			tails := append(append([][]step{}, fdT...), pathTails(isDir, e.thorough)...)
+			tails := append(append([][]step{}, fdT...), pathTails(isDir, e.thorough, w.ext)...)
 			for _, t := range tails {
 				word := append([]step{open}, t...)
 				errs, _ := e.runWord(w, st, word)
@@ -534,7 +566,7 @@ func (e *explorer) openShard(kind int, path string, lookup uint16, rights uint64
 // that ask for modification (and plain read opens), each successful one followed by every tail.
 func (e *explorer) provOpenShard(kind, prov int, paths []string) {
 	st := newStats()
-	w := newWorld(kind, e.tmp, false, prov)
+	w := newWorld(kind, e.tmp, false, prov, false)
 	defer func() { w.close(); e.merge(kind, st); e.provWords[prov].Add(st.words) }()
 	fdT := fdTails(false)
 	for _, p := range paths {
@@ -559,7 +591,7 @@ func (e *explorer) provOpenShard(kind, prov int, paths []string) {
 					if isDir {
 						st.dirOpens++
 					}
-					for _, t := range append(append([][]step{}, fdT...), pathTails(isDir, false)...) {
+					for _, t := range append(append([][]step{}, fdT...), pathTails(isDir, false, false)...) {
 						word := append([]step{open}, t...)
 						errs, _ := e.runWord(w, st, word)
 						if len(errs) == len(word) && nontrivial(errs) {
@@ -580,7 +612,7 @@ func (e *explorer) rootShard(kind int, ops []step, fdOps, cross bool) {
 
 func (e *explorer) rootShardProv(kind int, ops []step, fdOps, cross bool, prov int) {
 	st := newStats()
-	w := newWorld(kind, e.tmp, cross, prov)
+	w := newWorld(kind, e.tmp, cross, prov, true)
 	defer func() { e.provWords[prov].Add(st.words) }()
 	defer func() { w.close(); e.merge(kind, st) }()
 	for _, s := range ops {
@@ -623,7 +655,7 @@ func main() {
 	for i, f := range wasiFuncs {
 		e.opIdx[f.name] = i
 	}
-	e.fullEvery = 4
+	e.fullEvery = 8
 	if e.thorough {
 		e.fullEvery = 1
 	}
@@ -654,14 +686,14 @@ func main() {
 		// configuration provenance: the same mount built in other, equivalent ways (quickPaths in both tiers)
 		for prov := 1; prov < nProvs && kind <= kDualFS; prov++ { // provenances: the three standard kinds and dualfs
 			prov := prov
-			pr := rootPathOps(quickPaths)
+			pr := rootPathOps(basePaths)
 			for i := 0; i < len(pr); i += chunk {
 				part := pr[i:min(i+chunk, len(pr))]
 				shards = append(shards, func() { e.rootShardProv(kind, part, false, false, prov) })
 			}
 			shards = append(shards, func() { e.rootShardProv(kind, rootFdOps(), true, false, prov) })
-			for i := 0; i < len(quickPaths); i += 5 {
-				part := quickPaths[i:min(i+5, len(quickPaths))]
+			for i := 0; i < len(basePaths); i += 5 {
+				part := basePaths[i:min(i+5, len(basePaths))]
 				shards = append(shards, func() { e.provOpenShard(kind, prov, part) })
 			}
 		}
@@ -687,7 +719,7 @@ func main() {
 	outcomes := map[string]int64{}
 	bounds := map[string]any{
 		"paths": paths, "oflags": "all 16", "fdflags": "all 32", "rights": []string{"0", "READ", "WRITE", "READ|WRITE", "ALL"}, "lookupflags": "0,1",
-		"fd_tails": len(fdTails(e.thorough)), "path_tails_dir": len(pathTails(true, e.thorough)), "path_tails_nondir": len(pathTails(false, e.thorough)),
+		"fd_tails": len(fdTails(e.thorough)), "path_tails_dir": len(pathTails(true, e.thorough, true)), "path_tails_nondir": len(pathTails(false, e.thorough, true)),
 		"provenances": provNames[:], "three_step_words": e.thorough, "two_descriptor_words": e.thorough, "full_snapshot_every_words": e.fullEvery, "shards": len(shards), "explore_wall_s": float64(int(wall*10)) / 10,
 	}
 	var steps, words, nontriv, reads, opensOK int64
@@ -720,7 +752,7 @@ func main() {
 	sort.Strings(keys)
 	run.Finish(fw.Coverage{
 		Evaluations: steps, DistinctNontriv: nontriv,
-		Rule: "one evaluation = one WASI call executed through the guest followed by a full snapshot comparison; a case is a (mount, word) tuple, every tuple is enumerated exactly once; non-trivial = the word's last step was not stopped by argument validation (errno other than EINVAL/EFAULT/EPERM/ENOTDIR)",
+		Rule:    "one evaluation = one WASI call executed through the guest followed by a full snapshot comparison; a case is a (mount, word) tuple, every tuple is enumerated exactly once; non-trivial = the word's last step was not stopped by argument validation (errno other than EINVAL/EFAULT/EPERM/ENOTDIR)",
 		Samples: e.samples.List(), Exhaustive: true, Outcomes: outcomes, Bounds: bounds,
 		Extra: map[string]any{"words_per_provenance": provWords, "words": words, "successful_open_classes_extended_to_sequences": opensOK, "read_through_checks": reads, "per_mount": perKind},
 	}, []string{
@@ -744,12 +776,12 @@ func replayMain(file string) {
 	}
 	tmp, err := os.MkdirTemp("", "c17-replay-")
 	must(err)
-	w := newWorld(kindByName(doc.Replay.Mount), tmp, doc.Replay.Cross, provByName(doc.Replay.Prov))
+	w := newWorld(kindByName(doc.Replay.Mount), tmp, doc.Replay.Cross, provByName(doc.Replay.Prov), !doc.Replay.Base)
 	fmt.Printf("replaying %s on mount %s\n", doc.Signature, doc.Replay.Mount)
 	at, _ := replayWord(w, doc.Replay.Word, func(s string) { fmt.Println(s) })
 	bad := at >= 0
 	if len(doc.Replay.Word) == 0 || !bad {
-		for _, pc := range readable(w.kind) {
+		for _, pc := range readable(w.kind, w.ext) {
 			got, en := w.readThrough(pc[0])
 			fmt.Printf("read %q through the mount -> %s %q\n", pc[0], errName(en), got)
 			if en != 0 || got != pc[1] {
